@@ -67,13 +67,11 @@ Definition outer_use (en : env) (o : socc) : bool :=
   negb (is_decl (s_role o)) && binding_eqb (s_bind o) (resolve en (s_name o)).
 
 (* `local n_0, ..., n_k = e_0, ..., e_m`: tags of the occurrences inside e_i.  Class B3 (a use of an EARLIER name of
-   the statement in e_i: the traversal had added it already) is REPAIRED (fixes/C07-multi-local-order.diff): no
-   occurrence carries CB3 any more; for the position resolver these occurrences are part of class B1 (tag CB1). *)
-Definition tag_local_init (en : env) (ns : list (list N)) (i : nat) (e : exp) (os : list socc) : list socc :=
-  let protected (n : list N) :=
-      (Nat.eqb (count_name n ns) 1) && beq_bytes (nth i ns []) n
-      && (match ref_of_exp e with RNone => false | _ => true end) in
-  tag_if (fun o => outer_use en o && name_in (s_name o) ns && negb (protected (s_name o))) CB1 os.
+   the statement in e_i: the traversal had added it already) is REPAIRED (fixes/C07-multi-local-order.diff), and so is
+   class B1 (a use of ANY name of the statement in the initialiser list: the position resolver took the statement's
+   own variable; fixes/C05-own-initialiser.diff, VarInfo.InitLoc): no occurrence of this fragment carries a tag any
+   more.  (The wide fragment keeps CB1 for one shape, see LuaScopeWide.tag_local_init_w.) *)
+Definition tag_local_init (en : env) (ns : list (list N)) (i : nat) (e : exp) (os : list socc) : list socc := os.
 
 Definition index_map {A B} (f : nat -> A -> B) : nat -> list A -> list B :=
   fix go (i : nat) (l : list A) {struct l} : list B :=
@@ -412,6 +410,9 @@ Inductive mark :=
 | MIdE (l : loc).            (* its end (exclusive column = the last cursor position that belongs to it) *)
 
 Definition id_marks (l : loc) : list mark := [MIdS l; MIdE l].
+(* marks inside a region of their own (the initialiser list of a local statement) *)
+Definition region_marks (o : option loc) (ms : list mark) : list mark :=
+  match o with Some il => MOpen il :: ms ++ [MClose il] | None => ms end.
 
 Fixpoint m_exp (e : exp) {struct e} : list mark :=
   match e with
@@ -452,7 +453,10 @@ with m_stat (s : stat) {struct s} : list mark :=
       MOpen l :: id_marks nl ++ flat_map id_marks plocs ++ m_block b ++ [MClose l]
     | _, _ => flat_map m_exp vars ++ flat_map m_exp es
     end
-  | SLocal _ ls _ es _ => flat_map id_marks ls ++ flat_map m_exp es
+  | SLocal ns ls _ es l =>
+    (* the initialiser list is a region of its own (Scope.init_loc: from behind the last name to the end of the
+       statement): IsCorrectPosition hides the declared variables from the cursors inside it *)
+    flat_map id_marks ls ++ region_marks (init_loc ns ls es l) (flat_map m_exp es)
   | SLocalFunc _ nl f _ =>
     match f with
     | EFunc _ _ _ plocs b l _ _ => MOpen l :: id_marks nl ++ flat_map id_marks plocs ++ m_block b ++ [MClose l]
